@@ -43,7 +43,7 @@ Definition lookup (table : list (string * bool)) (_ : unit) (i : string) : bool 
 Definition corr (c : case) : bool :=
   match c with
   | CList all arg isre obs =>
-    Bool.eqb (is_regexp_arg arg) isre && res_eqb list_eqb (parse_iface_list_orig all arg) obs
+    Bool.eqb (is_regexp_arg arg) isre && res_eqb list_eqb (parse_iface_list all arg) obs
   | CRegex all arg isre compiles table obs =>
     Bool.eqb (is_regexp_arg arg) isre
     && res_eqb list_eqb
